@@ -56,6 +56,16 @@ pub fn record(args: &[String]) {
             push_chain(&mut out, &format!("halfline/f64 warmup={w}"), delta, &raw, &OwnN::HalfLine, 1e-7, false, &mut stats, panic);
         }
     }
+    // long warm-ups on a bounded-support target (log-density NaN outside): the step size has to stay finite through
+    // hundreds of transitions whose trajectories leave the support
+    {
+        let w = if thorough { 2000 } else { 700 };
+        let sd = splitmix(&mut s);
+        let (raw, panic) = run_chain::<B32, f32, _>(HalfLineN, vec![0.7, 1.5], 0.8, sd, &[(4, w)], None);
+        push_chain(&mut out, &format!("halfline/f32 long warmup={w}"), 0.8f32 as f64, &raw, &OwnN::HalfLine, 5e-4, false, &mut stats, panic);
+        let (raw, panic) = run_chain::<B64, f64, _>(HalfLineN, vec![0.7, 1.5], 0.8, sd + 1, &[(4, w)], None);
+        push_chain(&mut out, &format!("halfline/f64 long warmup={w}"), 0.8, &raw, &OwnN::HalfLine, 1e-7, false, &mut stats, panic);
+    }
     // the multi-chain front end: every chain starts from ITS OWN heuristic value (its start point, its first momentum
     // draw) and shrinks towards ln(10 eps0) of that value
     {
